@@ -526,17 +526,21 @@ func (c *Client) processConnack(connack *packet.Connack) error {
 		return err
 	}
 
+	// retrieve stored packets before new packets can be added by the
+	// application, otherwise a fresh publish would be resent as a duplicate
+	// while it is still being sent by another goroutine
+	packets, err := c.Session.AllPackets(session.Outgoing)
+	if err != nil {
+		err = c.die(err, true)
+		c.connectFuture.Cancel(connack)
+		return err
+	}
+
 	// set state to connected
 	atomic.StoreUint32(&c.state, clientConnected)
 
 	// complete future
 	c.connectFuture.Complete(connack)
-
-	// retrieve stored packets
-	packets, err := c.Session.AllPackets(session.Outgoing)
-	if err != nil {
-		return c.die(err, true)
-	}
 
 	// resend stored packets
 	for _, pkt := range packets {
